@@ -4,7 +4,7 @@
 # the violation again), stores the minimised replay as a regression-corpus entry, and restores /repo.
 set -u
 commit=$1; prop=$2; name=$3
-cd /verif
+cd /verif; export KAISIM_EVIDENCE_DIR=/tmp/seeded-evidence
 git -C /repo diff --quiet && git -C /repo diff --cached --quiet || { echo "repo not clean"; exit 2; }
 git -C /repo revert --no-commit "$commit" >/dev/null || { git -C /repo revert --abort; exit 2; }
 out=$(KAISIM_QUICK_S=${KAISIM_QUICK_S:-30} ./check "$prop" quick 2>&1); rc=$?
